@@ -14,9 +14,12 @@ Model: Model/Adnl.lean (mirror of crypto/ciphers.py, crypto/signature.py, crypto
 `chanOf P a b ida idb` = `AdnlChannel(Client(a), Server(_, _, ed_pub(b)), local_id = ida, peer_id = idb)`.
 -/
 import TonVerif.Proofs.Adnl
+import TonVerif.Proofs.SrcAdnl
+import TonVerif.Generated.MnemonicNew
 
 namespace TonVerif.Properties.C20
 open TonVerif TonVerif.Model.Adnl TonVerif.Proofs.Adnl
+open TonVerif.Generated.AdnlSrc TonVerif.Proofs.SrcAdnl
 
 /-- CHANNEL SYMMETRY.  For any two seeds `a`, `b` and ANY two ids (so: `ida > idb`, `ida < idb`, `ida = idb`),
 let `A` be the channel `a` opens towards `b` and `B` the channel `b` opens towards `a`.  For every plaintext `m`:
@@ -244,5 +247,187 @@ example : let P : Prims Nat := { toy with keypair := fun s => (s, s ++ s), pbkdf
     (∀ pw salt n, 32 ≤ (P.pbkdf2 pw salt n).length) := by
   refine ⟨fun s hs => slice_append_left s s 32 hs, fun pw _ _ => ?_⟩
   simp [pad_length]
+
+/-! ## The same statements about the code REGENERATED from the Python source
+
+`Generated/AdnlSrc.lean` is rewritten from `crypto/ciphers.py`, `crypto/signature.py`, `crypto/keys.py` on every run of the check
+(translator harness/translate/pyprims.py, declared interface harness/translate/adnlsrc.py); `Proofs/SrcAdnl.lean` proves each
+regenerated function equal to its hand model for ALL inputs and ALL primitives `P`.  The theorems below restate the property
+theorems over the regenerated functions, so a change of the key schedule, the id comparison, the slicing, the packet layout, the
+signing helpers or the validity test in the source breaks a proof obligation here. -/
+
+/-- `AdnlChannel(Client(a), Server(host, port, ed_pub(b)), local_id = ida, peer_id = idb)` built by the REGENERATED constructors. -/
+def srcChan {W : Type} (P : Prims W) (a b ida idb : Bytes) : Option Channel :=
+  (Client_init P a).bind fun c => (Server_init P () 0 (P.edPub b)).bind fun s => AdnlChannel_init P c s ida idb
+
+theorem srcChan_eq {W : Type} (P : Prims W) (a b ida idb : Bytes) : srcChan P a b ida idb = some (chanOf P a b ida idb) := by
+  simp [srcChan, chanOf, Client_init_eq, Server_init_eq, AdnlChannel_init_eq]
+
+/-- CHANNEL KEYS of the regenerated `AdnlChannel.__init__` / `Client.__init__` / `Server.__init__` (ciphers.py).
+(1) for ALL client / server key records and ids the regenerated constructors return exactly what the hand model returns (none of
+them raises), and `get_key_aes_id(k) = H(d4adbc2d ‖ k)`; (2) so the channel object they build is `chanOf`; (3) given the laws of the
+primitives, both ends derive the same shared secret, advertise `H(d4adbc2d ‖ enc)` / `H(d4adbc2d ‖ dec)`, and the (enc, dec) keys
+are `(s, reverse s)` for `local_id > peer_id`, `(reverse s, s)` for `local_id < peer_id`, `(s, s)` for equal ids — the comparison
+being Python's order on `bytes`. -/
+theorem c20_src_channel_keys {W : Type} (P : Prims W) (L : ChannelLaws P) (a b ida idb : Bytes) :
+    (∀ (c : Client) (s : Server) (l p : Bytes), AdnlChannel_init P c s l p = some (Channel.new P c s l p)) ∧
+    (∀ seed, Client_init P seed = some (Client.new P seed)) ∧
+    (∀ host port pub, Server_init P host port pub = some (Server.new P pub)) ∧
+    (∀ k, get_key_aes_id P k = some (P.H (magicAes ++ k))) ∧
+    ∃ A B, srcChan P a b ida idb = some A ∧ srcChan P b a idb ida = some B ∧
+      A.shared = B.shared ∧
+      A.clientAesKeyId = P.H (magicAes ++ A.encKey) ∧ A.serverAesKeyId = P.H (magicAes ++ A.decKey) ∧
+      (A.encKey, A.decKey) =
+        if bytesLt idb ida then (A.shared, A.shared.reverse)
+        else if bytesLt ida idb then (A.shared.reverse, A.shared) else (A.shared, A.shared) :=
+  ⟨AdnlChannel_init_eq P, Client_init_eq P, Server_init_eq P, get_key_aes_id_eq P,
+    _, _, srcChan_eq P a b ida idb, srcChan_eq P b a idb ida, c20_channel_keys P L a b ida idb⟩
+
+/-- CHANNEL SYMMETRY of the regenerated code: the channel objects `A` (opened by `a` towards `b`) and `B` (by `b` towards `a`) are
+built by the regenerated constructors for ANY ids; the regenerated `A.encrypt(m)` returns `B.server_aes_key_id ‖ H(m) ‖ body` with
+`len(body) = len(m)` and the regenerated `B.decrypt(body, H(m))` returns `m`; and the same with `A` and `B` exchanged. -/
+theorem c20_src_symmetric {W : Type} (P : Prims W) (L : ChannelLaws P) (a b ida idb m : Bytes) :
+    ∃ A B, srcChan P a b ida idb = some A ∧ srcChan P b a idb ida = some B ∧
+      (∃ body, AdnlChannel_encrypt_obj P A m = some (B.serverAesKeyId ++ P.H m ++ body) ∧
+        body.length = m.length ∧ AdnlChannel_decrypt_obj P B body (P.H m) = some m) ∧
+      (∃ body, AdnlChannel_encrypt_obj P B m = some (A.serverAesKeyId ++ P.H m ++ body) ∧
+        body.length = m.length ∧ AdnlChannel_decrypt_obj P A body (P.H m) = some m) := by
+  refine ⟨_, _, srcChan_eq P a b ida idb, srcChan_eq P b a idb ida, ?_⟩
+  simp only [encrypt_eq, decrypt_eq]
+  exact c20_symmetric P L a b ida idb m
+
+/-- the regenerated `AdnlChannel.encrypt` / `decrypt` are the model's for EVERY channel record (also ones no constructor builds),
+and the regenerated `create_aes_ctr_sipher_from_key_n_data` + `create_aes_ctr_cipher` build a cipher exactly when key and checksum
+have at least 32 bytes, with AES key `key[0:16] ‖ sum[16:32]` and initial counter `sum[0:4] ‖ key[20:32]`
+(`AES.new` is read as raising unless the key has 16/24/32 and the counter 16 bytes). -/
+theorem c20_src_cipher {W : Type} (P : Prims W) (c : Channel) (key sum data : Bytes) :
+    AdnlChannel_encrypt_obj P c data = c.encrypt P data ∧
+    AdnlChannel_decrypt_obj P c data sum = c.decrypt P data sum ∧
+    ((create_aes_ctr_sipher_from_key_n_data P key sum).isSome ↔ 32 ≤ key.length ∧ 32 ≤ sum.length) ∧
+    (32 ≤ key.length → 32 ≤ sum.length → create_aes_ctr_sipher_from_key_n_data P key sum =
+      some (slice key 0 16 ++ slice sum 16 32, slice sum 0 4 ++ slice key 20 32)) := by
+  refine ⟨encrypt_eq P c data, decrypt_eq P c data sum, ?_, ?_⟩
+  · rw [cipher_eq]; exact cipherParams_isSome_iff key sum
+  · rw [cipher_eq]; exact cipherParams_some key sum
+
+/-- SIGNATURES, regenerated `sign_message` / `verify_sign` (signature.py) and `Client.sign` / `get_signature` (ciphers.py):
+none of them raises; `sign_message(m, sk)` (default encoder) is the first 64 bytes of `crypto_sign(m, sk)`; `verify_sign` is `True`
+exactly when `VerifyKey(pk).verify(m, sig)` returns; and with a correct primitive the 64-byte signature of either signer is
+accepted under the matching public key. -/
+theorem c20_src_sign {W : Type} (P : Prims W) (S : SignLaw P) (seed m : Bytes) :
+    (∀ msg sk, sign_message P msg sk () = some (slice (P.cryptoSign msg sk) 0 64)) ∧
+    (∀ pk msg sig, verify_sign P pk msg sig = some (P.verify pk msg sig)) ∧
+    ∃ sig, sign_message P m (P.keypair seed).2 () = some sig ∧ sig.length = 64 ∧
+      verify_sign P (P.keypair seed).1 m sig = some true ∧
+      (Client_init P seed).bind (fun c => Client_sign_obj P c m) = some sig ∧
+      (Client_init P seed).bind (fun c => verify_sign P c.edPub m sig) = some true := by
+  obtain ⟨h1, h2, h3, h4⟩ := c20_sign P S seed m
+  refine ⟨fun msg sk => sign_message_eq P msg sk, fun pk msg sig => verify_sign_eq P pk msg sig,
+    signMessage P m (P.keypair seed).2, sign_message_eq P _ _, h1, ?_, ?_, ?_⟩
+  · rw [verify_sign_eq, h2]
+  · simp only [Client_init_eq, Option.bind_some, Client_sign_eq, Client.new, h3]
+  · simp only [Client_init_eq, Option.bind_some, verify_sign_eq]
+    rw [← h3]; exact congrArg some h4
+
+/-- MNEMONICS, regenerated `mnemonic_is_valid` / `is_basic_seed` / `mnemonic_to_entropy` / key derivations (keys.py).
+(1) `mnemonic_is_valid(ws)` is `len(ws) == 24 and PBKDF2(HMAC(" ".join(ws), b''), "TON seed version", max(1, 100000 // 256))[0] == 0`
+— it raises (IndexError) only if the list has 24 words AND PBKDF2 returns no bytes, and is the model's decision otherwise;
+(2) every list RETURNED by the model of `mnemonic_new()` (any random stream) is accepted by the regenerated `mnemonic_is_valid`
+(`some true`: no exception) and consists of list words; (3) `mnemonic_to_private_key` / `mnemonic_to_wallet_key` / `mnemonic_to_seed`
+never raise and are the model's functions (HMAC → PBKDF2 100000 rounds with "TON default seed" → first 32 bytes → key pair; the
+wallet key a second key pair from the first 32 bytes of the secret key). -/
+theorem c20_src_mnemonic {W : Type} (P : Prims W) (words : List W) (rnd : Nat → Bytes)
+    (inner fuel k : Nat) (arr : List W) (k' : Nat)
+    (h : mnemonicNew P words rnd 24 inner fuel k = some (arr, k')) :
+    (∀ ws : List W, mnemonic_is_valid P ws =
+        if ws.length = 24 ∧ P.pbkdf2 (P.hmac512 (P.joinWords ws) []) saltVersion (max 1 (100000 / 256)) = [] then none
+        else some (ws.length == 24 && ((P.pbkdf2 (P.hmac512 (P.joinWords ws) []) saltVersion (max 1 (100000 / 256))).head? == some 0))) ∧
+    (mnemonic_is_valid P arr = some true ∧ ∀ w ∈ arr, w ∈ words) ∧
+    (∀ ws : List W, mnemonic_to_private_key P ws () = some (mnemonicToPrivateKey P ws) ∧
+      mnemonic_to_wallet_key P ws () = some (mnemonicToWalletKey P ws) ∧
+      ∀ salt, mnemonic_to_seed P ws salt () = some (mnemonicToSeed P ws salt)) := by
+  obtain ⟨hv, hw⟩ := c20_mnemonic P words rnd inner fuel k arr k' h
+  refine ⟨fun ws => ?_, ⟨?_, hw⟩, fun ws => ⟨mnemonic_to_private_key_eq P ws, mnemonic_to_wallet_key_eq P ws,
+    fun salt => mnemonic_to_seed_eq P ws salt⟩⟩
+  · rw [mnemonic_is_valid_eq]; simp [mnemonicIsValid, isBasicSeed, mnemonicToEntropy, pbkdfIterations]
+  · rw [mnemonic_is_valid_eq, hv]
+    have hb : isBasicSeed P (mnemonicToEntropy P arr) = true := by
+      simp only [mnemonicIsValid, Bool.and_eq_true] at hv; exact hv.2
+    have hne : P.pbkdf2 (mnemonicToEntropy P arr) saltVersion (max 1 (pbkdfIterations / 256)) ≠ [] := by
+      intro he; simp [isBasicSeed, he] at hb
+    simp [hne]
+
+/-- THE TWO `while True` FUNCTIONS of keys.py (`get_secure_random_number`: float arithmetic, `mnemonic_new`: unbounded retry) are not
+translated as a whole; their DECISION LINES are regenerated from the source on every run (Generated/MnemonicNew.lean): the word
+appended is `words[idx]` for the index drawn, the index is drawn from `[0, len(words))`, a candidate has `words_count` draws, the
+candidate is dropped exactly when it is not a basic seed; the random number raises for more than 53 bits, rejects exactly
+`number >= range` and returns `min + number`.  The second half shows that the hand model's loops (`drawWords`, `mnemonicNew`,
+`secureRandomNumber`, about which `c20_mnemonic` / `c20_random_in_range` are proved) are written with exactly these pieces. -/
+theorem c20_src_generator {W : Type} (P : Prims W) (words : List W) (rnd : Nat → Bytes) :
+    ((∀ idx, Generated.mnWordIndex idx = idx) ∧ Generated.mnDrawLo = 0 ∧ (∀ n, Generated.mnDrawHi n = n) ∧
+      (∀ wc, Generated.mnDraws wc = wc) ∧ (∀ b, Generated.mnRetry b = !b) ∧
+      (∀ bits, Generated.rnTooLarge bits = decide (bits > 53)) ∧
+      (∀ number range, Generated.rnReject number range = decide (number ≥ range)) ∧
+      (∀ lo number, Generated.rnResult lo number = lo + number)) ∧
+    (∀ fuel n k, drawWords words rnd fuel (n + 1) k =
+      match secureRandomNumber rnd Generated.mnDrawLo (Generated.mnDrawHi words.length) fuel k with
+      | none => none
+      | some (idx, k') =>
+        match words[Generated.mnWordIndex idx]? with
+        | none => none
+        | some w =>
+          match drawWords words rnd fuel n k' with
+          | none => none
+          | some (ws, k'') => some (w :: ws, k'')) ∧
+    (∀ wc inner fuel k, mnemonicNew P words rnd wc inner (fuel + 1) k =
+      match drawWords words rnd inner (Generated.mnDraws wc) k with
+      | none => none
+      | some (arr, k') =>
+        if Generated.mnRetry (isBasicSeed P (mnemonicToEntropy P arr)) then mnemonicNew P words rnd wc inner fuel k'
+        else some (arr, k')) ∧
+    (∀ minV maxV fuel k, secureRandomNumber rnd minV maxV (fuel + 1) k =
+      if maxV ≤ minV then none
+      else if Generated.rnTooLarge (clog2 (maxV - minV)) then none
+      else if (rnd k).length < (clog2 (maxV - minV) + 7) / 8 then none
+      else
+        let number := natOfBE ((rnd k).take ((clog2 (maxV - minV) + 7) / 8)) % (2 ^ clog2 (maxV - minV) - 1 + 1)
+        if Generated.rnReject number (maxV - minV) then secureRandomNumber rnd minV maxV fuel (k + 1)
+        else some (Generated.rnResult minV number, k + 1)) := by
+  have e1 : ∀ idx, Generated.mnWordIndex idx = idx := fun _ => rfl
+  have e2 : Generated.mnDrawLo = 0 := rfl
+  have e3 : ∀ n, Generated.mnDrawHi n = n := fun _ => rfl
+  have e4 : ∀ wc, Generated.mnDraws wc = wc := fun _ => rfl
+  have e5 : ∀ b, Generated.mnRetry b = !b := fun b => by cases b <;> simp [Generated.mnRetry]
+  have e6 : ∀ bits, Generated.rnTooLarge bits = decide (bits > 53) := fun _ => by simp [Generated.rnTooLarge]
+  have e7 : ∀ number range, Generated.rnReject number range = decide (number ≥ range) := fun _ _ => by simp [Generated.rnReject]
+  have e8 : ∀ lo number, Generated.rnResult lo number = lo + number := fun _ _ => by simp [Generated.rnResult]
+  refine ⟨⟨e1, e2, e3, e4, e5, e6, e7, e8⟩, ?_, ?_, ?_⟩
+  · intro fuel n k
+    rw [drawWords]; simp only [e1, e2, e3]; rfl
+  · intro wc inner fuel k
+    rw [mnemonicNew]; simp only [e4, e5]; rfl
+  · intro minV maxV fuel k
+    rw [secureRandomNumber]; simp only [e6, e7, e8, decide_eq_true_eq]
+
+
+/-- non-vacuity of the `c20_src_*` theorems: the regenerated constructors, `encrypt` and `decrypt` evaluated on the toy primitives
+(ids in both orders; 5-byte plaintext) — both directions round-trip and the packet starts with the key id the peer expects;
+with a 31-byte checksum the regenerated `decrypt` raises. -/
+example :
+    (srcChan toy [3, 1] [7] [2, 0] [1, 9]).isSome = true ∧
+    ((srcChan toy [3, 1] [7] [2, 0] [1, 9]).bind fun A => (srcChan toy [7] [3, 1] [1, 9] [2, 0]).bind fun B =>
+      (AdnlChannel_encrypt_obj toy A [1, 2, 3, 4, 5]).bind fun p =>
+        (AdnlChannel_decrypt_obj toy B (p.drop 64) (slice p 32 64)).map fun m => (m, decide (p.take 32 = B.serverAesKeyId)))
+      = some ([1, 2, 3, 4, 5], true) ∧
+    ((srcChan toy [3, 1] [7] [2, 0] [1, 9]).bind fun A => AdnlChannel_decrypt_obj toy A [1, 2] (List.replicate 31 0)) = none := by
+  decide +kernel
+
+example : (sign_message toy [1, 2] (toy.keypair [9, 9]).2 ()).bind (fun s => verify_sign toy [9, 9] [1, 2] s) = some true ∧
+    (sign_message toy [1, 2] (toy.keypair [9, 9]).2 ()).bind (fun s => verify_sign toy [9, 9] [1, 3] s) = some false := by
+  decide +kernel
+
+example : mnemonic_is_valid toy (List.replicate 24 0) = some true ∧ mnemonic_is_valid toy (List.replicate 24 5) = some false ∧
+    mnemonic_is_valid toy (List.replicate 12 0) = some false ∧ mnemonic_is_valid toy ([] : List Nat) = some false ∧
+    is_basic_seed toy [] = none := by decide +kernel
 
 end TonVerif.Properties.C20
